@@ -631,7 +631,9 @@ func Collide() []*Shape {
 					if a.ID != "vjl" && forms[1].Vis == "pub" {
 						continue // the public companion only under the richest set
 					}
-					s := mkShape("collide", a, forms, nil)
+					// one scratch package per colliding name: within a package every file then
+					// uses the same local names for its imports
+					s := mkShape("collide-"+pkg, a, forms, nil)
 					out = append(out, s)
 				}
 			}
@@ -646,7 +648,7 @@ func Collide() []*Shape {
 				if order == "last" {
 					fs = append(append([]Form{}, forms...), Form{"priv", opt})
 				}
-				s := mkShape("collide", a, fs, nil)
+				s := mkShape("collide-all", a, fs, nil)
 				out = append(out, s)
 			}
 		}
